@@ -826,6 +826,50 @@ def empty_seq_batch(rng):
                    sig="pmulti|empty-seq")
 
 
+_DYN = [0]
+_DYN_NS = {"dataclass": __import__("dataclasses").dataclass, "Leaf": zoo.Leaf, "__name__": "c08_dynamic_classes"}
+
+
+def dyn_class_batch(rng):
+    """class-definition history with the matcher cache left alone: a pattern text is used BEFORE the class it names
+    exists (definition error), then the class is defined and the very same text (and a fresh one) must match exactly
+    the instances of the class, with the captures the statement prescribes"""
+    _DYN[0] += 1
+    name = f"DynP{_DYN[0]}Q{rng.randrange(10 ** 6)}"
+    texts = [f"({name} @v -> k)", f"(Tup @items=[({name}) -> a *])", f"(Leaf2|{name})", f'({name} @s="a")']
+    rng.shuffle(texts)
+    early, late = texts[:2], texts[2:]
+    cfg = zoo_c08.pick_config(rng)
+    pm._MATCHER_CACHE.clear()
+    toks0 = zoo.Tokens()
+    orgs0 = zoo.OrgTable()
+    lf = zoo.Leaf(v=1)
+    env0 = [zoo.class_table(), orgs0.sexp(), [A("nonnode")] + NONNODE, [A("tree"), zoo.enc_tree(lf, toks0, orgs0)]]
+    for t in early:
+        with zoo_c08.configured(cfg):
+            real, _ = obs_match(t, lf, toks0)
+        yield Case("pmatch_before_class", dumps([A("pmatch")] + env0 + [[A("text"), t], [A("node"), toks0.tok(lf)]]), real, True,
+                   f"pattern={t!r} (class {name} not defined yet) [config: {cfg}]", sig="pmatch|before-class")
+    exec(f"@dataclass(frozen=True)\nclass {name}(Leaf):\n    pass\n", _DYN_NS)
+    cls = _DYN_NS[name]
+    zoo_c08.register_leaf_class(cls)
+    nodes = [cls(v=1, s="ab"), zoo.Leaf(v=1, s="ab"), zoo.Leaf2(v=2)]
+    nodes.append(zoo.Tup((nodes[0], nodes[1])))
+    root = zoo.Tup(tuple(nodes))
+    toks = zoo.Tokens()
+    orgs = zoo.OrgTable()
+    env = [zoo.class_table() + [zoo_c08.class_row(cls)], orgs.sexp(), [A("nonnode")] + NONNODE, [A("tree"), zoo.enc_tree(root, toks, orgs)]]
+    for t in early + late:
+        for node in nodes:
+            with zoo_c08.configured(cfg):
+                real, _ = obs_match(t, node, toks)
+            yield Case("pmatch_after_class", dumps([A("pmatch")] + env + [[A("text"), t], [A("node"), toks.tok(node)]]), real, True,
+                       f"pattern={t!r} node=#{toks.tok(node)}={zoo.show(node)} (class {name}(Leaf) defined"
+                       + (" AFTER this text was first compiled)" if t in early else ")") + f" [config: {cfg}]",
+                       sig="pmatch|after-class")
+    pm._MATCHER_CACHE.clear()
+
+
 def cases(rng: random.Random, tier: str):
     yield from fixed_cases()
     n = 230 if tier == "quick" else 5000
@@ -835,3 +879,5 @@ def cases(rng: random.Random, tier: str):
             yield from ws_batch(rng)
         if i % 4 == 1:
             yield from empty_seq_batch(rng)
+        if i % 10 == 2:
+            yield from dyn_class_batch(rng)
